@@ -20,7 +20,7 @@ func (c *FnCtx) execInstr(fr *Frame, st *State, instr ssa.Instruction) {
 			return
 		}
 		ref := c.newRef(st, fr.fn.Name()+"."+i.Comment)
-		c.eng.nonNil[ref] = true
+		c.nonNil[ref] = true
 		c.eng.onAlloc(c, st, ref, t)
 		if isStructVal(t) {
 			c.storeStruct(st, t, ref, c.ty.Zero(t))
@@ -140,7 +140,7 @@ func (c *FnCtx) execInstr(fr *Frame, st *State, instr ssa.Instruction) {
 	case *ssa.MakeMap:
 		mt := i.Type().Underlying().(*types.Map)
 		ref := c.newRef(st, "map")
-		c.eng.nonNil[ref] = true
+		c.nonNil[ref] = true
 		has, val, ln := c.mapHeaps(mt)
 		c.heapSet(st, has, "(store "+c.heapGet(st, has)+" "+ref+" ((as const (Array "+c.ty.SortOf(mt.Key())+" Bool)) false))")
 		c.heapSet(st, ln, "(store "+c.heapGet(st, ln)+" "+ref+" 0)")
@@ -167,11 +167,11 @@ func (c *FnCtx) execInstr(fr *Frame, st *State, instr ssa.Instruction) {
 			bs = append(bs, c.val(fr, b))
 		}
 		ref := c.newRef(st, "clo$"+fn.Name())
-		c.eng.nonNil[ref] = true
+		c.nonNil[ref] = true
 		fr.vals[i] = Val{T: i.Type(), E: ref, Clo: &Closure{Fn: fn, Bindings: bs}}
 	case *ssa.MakeChan:
 		ref := c.newRef(st, "chan")
-		c.eng.nonNil[ref] = true
+		c.nonNil[ref] = true
 		c.chanInit(st, ref, c.val(fr, i.Size).E)
 		fr.vals[i] = Val{T: i.Type(), E: ref}
 	case *ssa.Call:
@@ -502,6 +502,7 @@ func (c *FnCtx) makeInterface(x Val, it types.Type) Val {
 	id := c.ty.TypeID(x.T)
 	v := Val{T: it, E: c.sc.Define("mi", sIface, fmt.Sprintf("(mk-iface %d %s)", id, c.boxed(x.T, x.E)))}
 	v.Clo = x.Clo
+	v.Dyn = x.T
 	return v
 }
 
@@ -723,13 +724,13 @@ func (c *FnCtx) execRange(fr *Frame, st *State, i *ssa.Range) {
 	}
 	key := fmt.Sprintf("%d:range:%s", fr.id, i.Name())
 	st.locals[key] = Val{T: types.Typ[types.Int], E: "0"}
-	c.eng.ranges[key] = &rangeState{mapT: mt, m: x.E, keys: keys, n: n, pos: key, has0: H, val0: V}
+	c.ranges[key] = &rangeState{mapT: mt, m: x.E, keys: keys, n: n, pos: key, has0: H, val0: V}
 	fr.vals[i] = Val{T: i.Type(), E: key}
 }
 
 func (c *FnCtx) execNext(fr *Frame, st *State, i *ssa.Next) {
 	it := c.val(fr, i.Iter)
-	rs := c.eng.ranges[it.E]
+	rs := c.ranges[it.E]
 	if rs == nil {
 		c.unsupported("next on unknown iterator")
 	}
